@@ -178,7 +178,7 @@ def run():
             # bounded + direct, and at the same time the generators of the inputs for the real code
             "nbr": ("CssMinify_Gen", _cfg(nb, "p", 5, MODEL_IMPL, inv), {}),
             "sim": None,
-            "bsel": ("CssMinify_Gen", _cfg("RowsBytesSel", "x", nsym, MODEL_IMPL, inv), {}),
+            "bsel": ("CssMinify_Gen", _cfg("RowsBytesSel", "x", nsym, MODEL_IMPL, inv + " Shrinks"), {}),
             "bsel2": ("CssMinify_Gen", _cfg("RowsBytesSel2", "x", nsym - 1, MODEL_IMPL, inv), {}),
             "bval": ("CssMinify_Gen", _cfg("RowsBytesVal", "x", nsym, MODEL_IMPL, inv), {}),
             "bstr": ("CssMinify_Gen", _cfg("RowsBytesStr", "x", nsym, MODEL_IMPL, inv), {}),
